@@ -31,7 +31,7 @@ func init() {
 		Run:            run,
 		MinEvaluations: map[string]int{"quick": 200000, "thorough": 2000000},
 		MinNontrivial:  map[string]int{"quick": 2000, "thorough": 20000},
-		RequiredObs:    []string{"op:AddVertex", "op:RemoveVertex", "op:RemoveVertex(non-last)", "op:AddEdge", "op:RemoveEdge", "op:Copy", "op:InducedSubgraph", "mutation_after_copy_or_induced", "addvertex_reusing_backing_array", "large_histories(n crossing 64/128)", "start_graphs_with_nonunit_edge_bytes_and_dirty_spare_capacity", "argument_slice_object_passed_again", "argument_slice_overwritten_by_caller_after_call", "returned_slices_overwritten_then_reobserved"},
+		RequiredObs:    []string{"op:AddVertex", "op:RemoveVertex", "op:RemoveVertex(non-last)", "op:AddEdge", "op:RemoveEdge", "op:Copy", "op:InducedSubgraph", "mutation_after_copy_or_induced", "addvertex_reusing_backing_array", "large_histories(n crossing 64/128)", "induced_shape_histories", "start_graphs_with_nonunit_edge_bytes_and_dirty_spare_capacity", "argument_slice_object_passed_again", "argument_slice_overwritten_by_caller_after_call", "returned_slices_overwritten_then_reobserved"},
 	})
 }
 
@@ -509,6 +509,9 @@ func run(c *engine.Ctx) {
 	// 1b. histories on graphs whose order crosses 64 / 128
 	largeHistories(c)
 
+	// 1c. InducedSubgraph with vertex lists of every relative size (|V| from 1 to n) on graphs with hubs
+	inducedShapes(c)
+
 	// 2. seeded long histories.
 	nh := c.Pick(12000, 40000)
 	L := c.Pick(80, 300)
@@ -729,3 +732,107 @@ func largeHistories(c *engine.Ctx) {
 }
 
 var _ = sortints.SortedInts(nil)
+
+// inducedShapes: InducedSubgraph(V) for |V| from 1 to n on graphs of 17..130 vertices with vertices of very high and
+// very low degree (stars, hub + cycle, dense and sparse random graphs with hubs), V in random order, containing
+// neighbours and non-neighbours of the hubs in every interleaving; every result is then edited and the source
+// re-observed.  (The ratio |neighbourhood| / |V| is a parameter the edit histories above do not vary: their lists
+// have n-3..n entries.)
+func inducedShapes(c *engine.Ctx) {
+	nh := c.Pick(96, 480)
+	per := 4
+	for u := 0; u*per < nh; u++ {
+		u := u
+		c.Unit(fmt.Sprintf("induced-shapes/%d", u), func() {
+			r := &runner{c: c, label: "induced-shapes"}
+			for i := u * per; i < (u+1)*per && i < nh && !c.Stopped(); i++ {
+				rg0 := c.Rand("c05-induced", i)
+				n := []int{17, 20, 24, 33, 48, 64, 65, 100, 130}[i%9]
+				start := rg.New(n)
+				shape := (i / 9) % 6
+				switch shape {
+				case 0: // star with centre 0
+					for v := 1; v < n; v++ {
+						start.Add(0, v)
+					}
+				case 1: // cycle on 0..n-2 plus a hub n-1 adjacent to every second vertex and more
+					for v := 0; v < n-1; v++ {
+						start.Add(v, (v+1)%(n-1))
+						if v%2 == 0 || rg0.Bool(0.4) {
+							start.Add(n-1, v)
+						}
+					}
+				default:
+					p := []float64{0.5, 0.9, 0.08, 0.25}[shape-2]
+					for a := 0; a < n; a++ {
+						for b := 0; b < a; b++ {
+							if rg0.Bool(p) {
+								start.Add(a, b)
+							}
+						}
+					}
+					// two hubs with a few non-neighbours each
+					for _, h := range []int{rg0.Intn(n), rg0.Intn(n)} {
+						for v := 0; v < n; v++ {
+							if v != h && !rg0.Bool(0.15) {
+								start.Add(h, v)
+							}
+						}
+					}
+				}
+				sim := []*rg.G{start.Copy()}
+				var ops []op
+				sizes := []int{1, 2, 2, 3, 3, 4, 5, 6, 8, n / 8, n / 4, n / 2, n - 1, n}
+				for q := 0; q < 7; q++ {
+					k := sizes[rg0.Intn(len(sizes))]
+					if k < 1 {
+						k = 1
+					}
+					l := append([]int{}, rg0.Perm(n)[:k]...)
+					if rg0.Bool(0.6) {
+						// make sure a vertex of maximum degree is in the list
+						best := 0
+						for v := 0; v < n; v++ {
+							if sim[0].Deg(v) > sim[0].Deg(best) {
+								best = v
+							}
+						}
+						has := false
+						for _, v := range l {
+							has = has || v == best
+						}
+						if !has {
+							l[rg0.Intn(len(l))] = best
+						}
+					}
+					if rg0.Bool(0.3) {
+						sort.Ints(l)
+					}
+					ops = append(ops, op{kind: "is", t: 0, list: l})
+					res := sim[0].Induced(l)
+					sim = append(sim, res)
+					ti := len(sim) - 1
+					// edit the result, then the source
+					if res.N >= 2 {
+						a, b := rg0.Intn(res.N), rg0.Intn(res.N)
+						if res.Has(a, b) {
+							ops = append(ops, op{kind: "re", t: ti, a: a, b: b})
+							res.Del(a, b)
+						} else {
+							ops = append(ops, op{kind: "ae", t: ti, a: a, b: b})
+							res.Add(a, b)
+						}
+					}
+					if q%3 == 2 {
+						a, b := rg0.Intn(n), rg0.Intn(n)
+						ops = append(ops, op{kind: "ae", t: 0, a: a, b: b})
+						sim[0].Add(a, b)
+					}
+				}
+				c.Obs("induced_shape_histories", 1)
+				r.variant = i % 2
+				r.runHistory(fmt.Sprintf("induced-shapes#%d", i), start, i%3 == 0, ops, fmt.Sprintf("induced-shapes#%d", i))
+			}
+		})
+	}
+}
